@@ -46,7 +46,15 @@ fn with_park<R>(f: impl FnOnce(&mut Park) -> R) -> R {
 }
 
 fn hit(point: &str) {
-    let Some(name) = TNAME.with(|t| t.borrow().clone()) else { return };
+    // harness worker threads carry an explicit name; other threads (the store's background thread)
+    // are known by their OS thread name
+    let name = match TNAME.with(|t| t.borrow().clone()) {
+        Some(n) => n,
+        None => match std::thread::current().name() {
+            Some(n) => n.to_string(),
+            None => return,
+        },
+    };
     let mut g = PARK.lock().unwrap();
     let Some(p) = g.as_mut() else { return };
     let mut park_here = false;
